@@ -24,7 +24,9 @@ pub fn campaign(a: &Args) -> Campaign {
         },
         ver: VerMode::Any,
         vlog: VlogMode::Any,
-        exec: ExecOpts { fresh_battery: false, readers_after_placement: true, ..Default::default() },
+        // versioned: on stores with versioning (unlimited retention, no version index) the open
+        // readers also run time-travel reads and history listings at their horizon
+        exec: ExecOpts { fresh_battery: false, readers_after_placement: true, versioned: true, ..Default::default() },
         tweak: |c, r| {
             // small level counts make bottom-level tombstone handling frequent
             if r.chance(1, 2) {
